@@ -14,7 +14,7 @@ package main
 //@   safety C19
 //@   effect fs-read fs-write io-write
 //@   modifies H:registry., H:moq.Mocker#, H:template., M:, A:, H:bytes.Buffer#
-//@   ensures{C19} not-enough-args: len(flags.args) < 2 ==> err != nil && errMsg(err) == "not enough arguments" && forallEv(i, !effectful(i))
+//@   ensures{C19} not-enough-args: len(flags.args) < 2 ==> err != nil && forallEv(i, !effectful(i))
 //@   ensures{C15,C18} rm-only-on-request: forallEv(i, evIs(i, "os.Remove") ==> flags.remove && flags.outFile != "" && evArg(i, 0) == flags.outFile)
 //@   ensures{C15} rm-first: forallEv(i, j, evIs(i, "os.Remove") && effectful(j) ==> i <= j)
 //@   ensures{C15} rm-happens: len(flags.args) >= 2 && flags.remove && flags.outFile != "" ==> existsEv(i, evIs(i, "os.Remove"))
